@@ -331,6 +331,18 @@ def translate(file, impl, name, lean):
             ln = f"x{counter}"
             lines.append(f"let {ln} := ({env['self']} {P.LEAN[op]} {e})")
             env["self"] = ln
+        elif st[:4] == ["self", ".", "0", "="]:
+            e = P(st[4:], env).expr()
+            counter += 1
+            ln = f"x{counter}"
+            lines.append(f"let {ln} := {e}")
+            env["self"] = ln
+        elif len(st) > 2 and st[0] in env and st[0] != "self" and st[1] == "=":
+            e = P(st[2:], env).expr()
+            counter += 1
+            ln = f"{st[0]}{counter}"
+            lines.append(f"let {ln} := {e}")
+            env[st[0]] = ln
         elif st[:2] == ["self", "."] and st[2] in METHOD_LEAN and mut_self:
             p = P(st[3:], env)
             p.expect("(")
@@ -532,16 +544,53 @@ def translate_zorder():
             "def zorderCmp (lhs_lat lhs_lon rhs_lat rhs_lon : Int) : Ordering :=\n  " + t + "\n")
 
 
+PINNED = os.path.join(VERIF, "tools", "pinned_fns.json")
+
+
+def pinned_text(lean, why):
+    """Definition text of `lean` as translated from the pinned commit (tools/pinned_fns.json, written by
+    `translate.py --pin`).  Used when the CURRENT source of the function is outside the translator's subset: the
+    hand models that call the function keep building (they then describe the pinned code; the correspondence check
+    still ties them to the current code), and the function is reported under "fallback", which check.py turns into
+    a secondary-tie note for every property."""
+    try:
+        txt = json.load(open(PINNED)).get(lean)
+    except Exception:
+        txt = None
+    if txt is None:
+        return None
+    return f"/-- PINNED, not regenerated: the current source is outside the translator's subset ({why}) -/\n" + txt
+
+
+def tie_theorems(names, sub):
+    """`Tbx.GenCur.<sub>f = Tbx.Gen.<sub>f` for every f: unfold both, rewrite the calls of earlier functions with
+    their own tie, close by rfl (bounded: a definition that changed makes the proof fail, it never searches)"""
+    out, prev = [], []
+    for l in names:
+        a, b = f"Tbx.GenCur.{sub}{l}", f"Tbx.Gen.{sub}{l}"
+        rw = ("simp only [" + ", ".join(prev) + "]") if prev else "fail"
+        out.append(f"theorem {l}_cur : @{a} = @{b} := by\n  unfold {a} {b}\n  first | ({rw}) | rfl")
+        prev.append(f"{l}_cur")
+    return "\n".join(out)
+
+
 def main():
-    done, skipped, defs = [], {}, []
+    done, skipped, defs, fallback, raw = [], {}, [], [], {}
     for (file, impl, name, lean) in WHITELIST:
         try:
-            defs.append(f"/-- generated from {file}: {(impl + '::') if impl else ''}{name} -/\n" + translate(file, impl, name, lean))
+            t = translate(file, impl, name, lean)
+            raw[lean] = t
+            defs.append(f"/-- generated from {file}: {(impl + '::') if impl else ''}{name} -/\n" + t)
             done.append(name)
         except Skip as e:
             skipped[name] = str(e)
         except Exception as e:  # the extractor never guesses
             skipped[name] = f"{type(e).__name__}: {e}"
+        if name in skipped:
+            t = pinned_text(lean, skipped[name])
+            if t is not None:
+                defs.append(t)
+                fallback.append(name)
     # the four projection keys of inertial flow: closures `|lat, lon| -> i32 { expr }` in ROTATED_COMPARATORS
     try:
         src = open(os.path.join(REPO, "src/inertial_flow.rs")).read()
@@ -555,30 +604,76 @@ def main():
         for i, (a, b, body) in enumerate(closures):
             e = P(tokenize(body), {a: "lat", b: "lon"}).expr()
             arms.append(f"  | {i} => {e}")
-        defs.append("/-- generated from src/inertial_flow.rs: ROTATED_COMPARATORS[axis](lat, lon) -/\n"
-                    "def rotatedComparator (axis : Nat) (lat lon : Int) : Int :=\n  match axis with\n" + "\n".join(arms) + "\n  | _ => 0\n")
+        raw["rotatedComparator"] = ("def rotatedComparator (axis : Nat) (lat lon : Int) : Int :=\n  match axis with\n" + "\n".join(arms) + "\n  | _ => 0\n")
+        defs.append("/-- generated from src/inertial_flow.rs: ROTATED_COMPARATORS[axis](lat, lon) -/\n" + raw["rotatedComparator"])
         done.append("ROTATED_COMPARATORS")
     except Skip as e:
         skipped["ROTATED_COMPARATORS"] = str(e)
+    except Exception as e:
+        skipped["ROTATED_COMPARATORS"] = f"{type(e).__name__}: {e}"
+    if "ROTATED_COMPARATORS" in skipped:
+        t = pinned_text("rotatedComparator", skipped["ROTATED_COMPARATORS"])
+        if t is not None:
+            defs.append(t)
+            fallback.append("ROTATED_COMPARATORS")
     # zorder_cmp: early returns, `.cmp(&x)`, a final `match` on an Ordering; i32 bit operations are taken on the
     # two's complement patterns (pat32), comparisons on the signed values
     try:
-        defs.append(translate_zorder())
+        raw["zorderCmp"] = translate_zorder()
+        defs.append(raw["zorderCmp"])
         done.append("zorder_cmp")
     except Skip as e:
         skipped["zorder_cmp"] = str(e)
     except Exception as e:
         skipped["zorder_cmp"] = f"{type(e).__name__}: {e}"
-    text = ("/- GENERATED by tools/translate.py from /repo's current source on every check run. Do not edit. -/\n"
-            "namespace Tbx.Gen\n\n"
-            "/-- `u32::leading_zeros` -/\n"
-            "def leadingZeros32 (x : Nat) : Nat := if x = 0 then 32 else 31 - Nat.log2 x\n\n"
-            + "\n".join(defs) + "\nend Tbx.Gen\n")
+    if "zorder_cmp" in skipped:
+        t = pinned_text("zorderCmp", skipped["zorder_cmp"])
+        if t is not None:
+            defs.append(t)
+            fallback.append("zorder_cmp")
+    if "--pin" in sys.argv:
+        json.dump(raw, open(PINNED, "w"), indent=1)
+        print(json.dumps({"pinned": sorted(raw)}))
+        return 0
+    # Two namespaces.  `Tbx.Gen` holds the translation of the PINNED commit (tools/pinned_fns.json): the hand models
+    # and their proofs build on it and therefore never break when the source is merely rewritten.  `Tbx.GenCur` holds
+    # the translation of the CURRENT source, regenerated on every run; lean/Tbx/Gen/CurTie.lean states, per function,
+    # `Tbx.GenCur.f = Tbx.Gen.f` by `rfl` - it checks iff the current source still translates to the pinned text.
+    # On the unchanged tree both are identical, so every theorem about `Tbx.Gen.f` is a theorem about what the
+    # source says now; after an edit the tie breaks (secondary tie: a note when the correspondence still holds).
+    try:
+        pinned = json.load(open(PINNED))
+    except Exception:
+        pinned = {}
+    order = [l for (_, _, _, l) in WHITELIST] + ["rotatedComparator", "zorderCmp"]
+    pin_defs, cur_defs, ties = [], [], []
+    for lean in order:
+        ptxt = pinned.get(lean, raw.get(lean))
+        if ptxt is None:
+            continue
+        pin_defs.append(ptxt)
+        if lean in raw:
+            cur_defs.append(raw[lean])
+            ties.append(lean)
+    helper = ("/-- `u32::leading_zeros` -/\n"
+              "def leadingZeros32 (x : Nat) : Nat := if x = 0 then 32 else 31 - Nat.log2 x\n\n")
+    text = ("/- GENERATED by tools/translate.py on every check run. Do not edit.\n"
+            "   namespace Tbx.Gen    = translation of the pinned commit (tools/pinned_fns.json)\n"
+            "   namespace Tbx.GenCur = translation of /repo's CURRENT source; Tbx/Gen/CurTie.lean proves them equal by rfl -/\n"
+            "namespace Tbx.Gen\n\n" + helper + "\n".join(pin_defs) + "\nend Tbx.Gen\n\n"
+            "namespace Tbx.GenCur\n\n" + "\n".join(cur_defs).replace("Tbx.Gen.pat32", "Tbx.GenCur.pat32") + "\nend Tbx.GenCur\n")
     old = open(OUT).read() if os.path.exists(OUT) else None
     if old != text:
         os.makedirs(os.path.dirname(OUT), exist_ok=True)
         open(OUT, "w").write(text)
-    print(json.dumps({"translated": done, "skipped": skipped}))
+    tie = ("/- GENERATED by tools/translate.py. Do not edit. -/\nimport Tbx.Gen.Fns\nset_option linter.unusedSimpArgs false\nnamespace Tbx.Gen.CurTie\n\n" +
+           tie_theorems(["pat32"] + ties if "zorderCmp" in ties else ties, "") +
+           "\n\nend Tbx.Gen.CurTie\n")
+    tp = os.path.join(os.path.dirname(OUT), "CurTie.lean")
+    if not os.path.exists(tp) or open(tp).read() != tie:
+        open(tp, "w").write(tie)
+    fallback = [n for n in skipped]
+    print(json.dumps({"translated": done, "skipped": skipped, "fallback": fallback}))
     return 0
 
 
